@@ -51,7 +51,13 @@ Fixpoint judge_procs (t : url_table) (ns : string) (idx : nat) (l : list lfp) : 
   | [] => Pass
   | p :: r =>
       match lp_impl p with
-      | None => SpecFail (10 * idx + 5)                       (* a valid create request was not processed *)
+      | None =>
+          (* refusing is right only when the request is not valid under the protocol (e.g. a
+             re-spelling that exceeds the maximum operation size): the model decides *)
+          match process_operation (uri_ok_of t) (url_norm_of t) ns (lp_bytes p) with
+          | None => judge_procs t ns (S idx) r
+          | Some _ => SpecFail (10 * idx + 5)                 (* a valid create request was not processed *)
+          end
       | Some res =>
           if negb (lp_resolves_back p) then SpecFail (10 * idx + 6)   (* the returned long-form DID does not resolve *)
           else if negb (opt_json_equiv2 (process_operation (uri_ok_of t) (url_norm_of t) ns (lp_bytes p)) (Some res)) then Mismatch (10 * idx + 7)
